@@ -35,6 +35,7 @@ API (stable; used read-only by other checks)
                                 one slice at a time, until all are parked.  `pick(list_of_recs)`
                                 may choose which runnable thread goes next (default: the one that
                                 became runnable first).  Returns the number of slices run.
+    vt.step(rec_or_label)       run ONE slice of that thread if it can run now (see runnable); -> bool.
     vt.runnable()               recs that `settle` could run now.
     vt.sleepers()               recs parked in a *timed* wait and not notified (see rec.deadline).
     vt.waiting()                recs parked in any `Condition.wait`.
@@ -409,6 +410,12 @@ class Kernel:
                   'join': 'join'}[r.state]
         self._resume(r, reason)
         return True
+
+    def step(self, r):
+        r = self.thread(r)
+        if not self._can_run(r):
+            return False
+        return self._run_one(lambda rs: r)
 
     def settle(self, pick=None, max_slices=1000000):
         n = 0
